@@ -102,6 +102,22 @@ CHECKS['C18'] = dict(
     design='§5 C18',
     note=COMMON_NOTE + 'The mapping from a queued op to its alter-table items is hand-written (validated by the count correspondence). C18_monotone is about the lowering of a fixed op list; that the optimiser never lengthens the op list is tested, not proved.')
 
+CHECKS['C01'] = dict(
+    technique='Lean 4 proof (rebuild = fresh on plain models, frame) + evolved-vs-fresh differential oracle with cause-classified findings',
+    text=('Lean model of the table a model signature stands for when created from scratch (`fresh`: columns with '
+          'type/nullability/primary key, per-field and table-level indexes, CHECKs) and of what the SQLite rebuild '
+          're-creates (`rebuilt`). Proved: for every model without table-level Meta and CHECK-carrying fields the '
+          'rebuilt table equals the fresh table (C01_partial_rebuild_plain); a model-local mutation leaves every '
+          'other model and every other app untouched (frame); kernel-checked counterexamples for lost '
+          'unique_together (F1) and lost CHECK (F22). Both models are validated against real tables (really created '
+          'models; tables the real backend has just rebuilt). The property oracle compares the introspected schema '
+          'after executing the generated SQL (one at a time and batched, hand-written and hinted evolutions, '
+          'DatabaseState scanned from the database) with the schema of freshly created evolved models, and checks '
+          'that tables of unrelated models are untouched; every difference is attributed to a listed finding by '
+          'cause or reported.'),
+    design='§5 C01',
+    note=COMMON_NOTE + 'C01_step for every mutation is NOT proved: the lowering of mutations to statements and SQLite execution are observed, not modelled; index/CHECK differences on rebuilt tables are masked by findings F1/F18/F22 (see DESIGN.md), column/foreign-key/table-set/frame differences are not.')
+
 NOT_YET = {}
 
 
